@@ -7,6 +7,7 @@ import Nlmodel.Proofs.Lemmas.NoDangle
 import Nlmodel.Proofs.Lemmas.ManagedInv
 import Nlmodel.Proofs.Lemmas.TypeInv
 import Nlmodel.Model.Pipeline
+import Nlmodel.Proofs.Lemmas.Ledger
 namespace Nl
 namespace C04
 open GC
@@ -137,6 +138,66 @@ theorem C04_result_outlives_the_interpreter (bc : Bytecode) (n : Nat) (v : Value
     simp [Heap.arrAt, hf] at ha
   exact ⟨fun f p => C04_handover_keeps_result {} bc TI.wt_empty n v s h harr f p, rfl,
     fun a hm hun => C04_handover_releases_the_rest {} bc TI.wt_empty n v s h a hm hun⟩
+
+/-! ### the whole-run ledger (`Lemmas/Ledger.lean`): every program, fresh machine, however the run ends -/
+
+/-- A FAILED RUN LEAVES NOTHING BEHIND: when a run of ANY bytecode on a fresh machine ends with an error raised
+    at any point, then after `run` has returned (the collector is dropped) NO cell of the heap is live —
+    every object the run allocated, constants included, has been released — and the collector is empty. -/
+theorem C04_failed_run_leaves_nothing (bc : Bytecode) (n : Nat) (e : Err) (s : VM)
+    (h : runSteps bc.code n (({} : VM).start bc) = .error e s) :
+    (∀ a, (finishError s).mem.heap.isLive a = false) ∧ (finishError s).mem.managed = [] :=
+  Ledger.failed_run_leaves_nothing bc n e s h
+
+/-- the same for a run ABANDONED after any number `n` of instructions (how the checks abort a run at every
+    instruction k: "an error raised at any point of the run") -/
+theorem C04_abandoned_run_leaves_nothing (bc : Bytecode) (n : Nat) (s : VM)
+    (h : runSteps bc.code n (({} : VM).start bc) = .budget s) :
+    (∀ a, (finishError s).mem.heap.isLive a = false) ∧ (finishError s).mem.managed = [] :=
+  Ledger.abandoned_run_leaves_nothing bc n s h
+
+/-- A NORMAL END LEAVES EXACTLY THE RESULT: after the hand-over and the drop a cell is live IF AND ONLY IF the
+    result reaches it; what the result reaches is what it reached at `Halt`, cell by cell unchanged (hence the
+    same deep view); the collector is empty.  Everything else the run allocated is gone. -/
+theorem C04_normal_run_leaves_only_the_result (bc : Bytecode) (n : Nat) (v : Value) (s : VM)
+    (h : runSteps bc.code n (({} : VM).start bc) = .value v s) :
+    (∀ a, (finishValue v s).mem.heap.isLive a = true ↔ GC.RV (finishValue v s).mem.heap v a) ∧
+    (∀ a, GC.RV (finishValue v s).mem.heap v a ↔ GC.RV s.mem.heap v a) ∧
+    (∀ a, GC.RV s.mem.heap v a → (finishValue v s).mem.heap.get a = s.mem.heap.get a) ∧
+    (∀ f p, (finishValue v s).mem.heap.tree f p v = s.mem.heap.tree f p v) ∧
+    (finishValue v s).mem.managed = [] :=
+  Ledger.normal_run_leaves_only_the_result bc n v s h
+
+/-- THE CALLER CAN RELEASE THE RESULT WITHOUT ANYTHING REMAINING OR BEING RELEASED TWICE: the cells the result
+    reaches, listed once each (`GC.reachable`, duplicate-free, exactly the live cells), can be released one
+    after the other — each is live when its turn comes — and afterwards no cell is live at all. -/
+theorem C04_caller_releases_result (bc : Bytecode) (n : Nat) (v : Value) (s : VM)
+    (h : runSteps bc.code n (({} : VM).start bc) = .value v s)
+    (f : Nat) (hfuel : (finishValue v s).mem.heap.cells.size < f) :
+    (GC.reachable (finishValue v s).mem.heap f [] v).Nodup ∧
+    (∀ a, a ∈ GC.reachable (finishValue v s).mem.heap f [] v ↔ (finishValue v s).mem.heap.isLive a = true) ∧
+    (∀ a, (Ledger.releaseAll (finishValue v s).mem.heap (GC.reachable (finishValue v s).mem.heap f [] v)).isLive a = false) ∧
+    (∀ pre a post, GC.reachable (finishValue v s).mem.heap f [] v = pre ++ a :: post →
+      (Ledger.releaseAll (finishValue v s).mem.heap pre).isLive a = true) := by
+  obtain ⟨h1, _, h3, h4, h5⟩ := Ledger.caller_releases_result bc n v s h f hfuel
+  exact ⟨h1, h3, h4, h5⟩
+
+/-- EXACTLY ONCE, along any run (fresh machine or session): a cell that has been released is never live again
+    and never managed again, so no later sweep or drop can release it a second time -/
+theorem C04_released_exactly_once (prev : VM) (bc : Bytecode) (s1 : VM) (hr : TI.Reachable bc.code (prev.start bc) s1) (k : Nat) :
+    (runSteps bc.code k s1).MemP (fun m =>
+      s1.mem.heap.cells.size ≤ m.heap.cells.size ∧
+      ∀ a, a < s1.mem.heap.cells.size → s1.mem.heap.isLive a = false → m.heap.isLive a = false ∧ a ∉ m.managed) :=
+  Ledger.released_exactly_once prev bc s1 hr k
+
+/-- the three exits of `VM.run` in one statement -/
+theorem C04_run_ledger (bc : Bytecode) (n : Nat) :
+    match VM.run {} bc n with
+    | .value v s => (∀ a, s.mem.heap.isLive a = true ↔ GC.RV s.mem.heap v a) ∧ s.mem.managed = []
+    | .error _ s => (∀ a, s.mem.heap.isLive a = false) ∧ s.mem.managed = []
+    | .budget s => (∀ a, s.mem.heap.isLive a = false) ∧ s.mem.managed = []
+    | .fault _ => True :=
+  Ledger.run_ledger bc n
 
 end C04
 end Nl
